@@ -1645,6 +1645,29 @@ func (m *repoManager) lockedUUID(uuid dvid.UUID) (bool, error) {
 	return locked, nil
 }
 
+func (m *repoManager) admitMutation(uuid dvid.UUID) (done func(), locked bool, err error) {
+	v, err := m.versionFromUUID(uuid)
+	if err != nil {
+		return nil, false, err
+	}
+	r, err := m.repoFromUUID(uuid)
+	if err != nil {
+		return nil, false, err
+	}
+
+	r.RLock()
+	node, found := r.dag.nodes[v]
+	r.RUnlock()
+	if !found {
+		return nil, false, ErrInvalidVersion
+	}
+	node.mutMu.RLock()
+	node.RLock()
+	locked = node.locked
+	node.RUnlock()
+	return node.mutMu.RUnlock, locked, nil
+}
+
 func (m *repoManager) lockedVersion(v dvid.VersionID) (bool, error) {
 	r, err := m.repoFromVersion(v)
 	if err != nil {
@@ -1686,6 +1709,8 @@ func (m *repoManager) commit(uuid dvid.UUID, note string, log []string) error {
 	t := time.Now()
 
 	dvid.VerifPoint("datastore.commit", uint64(v))
+	// wait for the mutation requests that were admitted while the node was open
+	node.mutMu.Lock()
 	node.Lock()
 	node.locked = true
 	if len(note) != 0 {
@@ -1693,6 +1718,7 @@ func (m *repoManager) commit(uuid dvid.UUID, note string, log []string) error {
 	}
 	dvid.VerifEvent("commit", "uuid", uuid, "version", v)
 	node.Unlock()
+	node.mutMu.Unlock()
 
 	if len(log) != 0 {
 		if err := node.addToLog(log); err != nil {
@@ -3492,6 +3518,10 @@ func (d *dagT) getParents(v dvid.VersionID) ([]dvid.VersionID, error) {
 
 type nodeT struct {
 	sync.RWMutex
+
+	// mutMu is held shared by every admitted mutation request until it has been handled,
+	// and exclusively by commit while it locks the node.
+	mutMu sync.RWMutex
 
 	branch string
 	note   string
